@@ -28,12 +28,13 @@ ASSUMPTIONS = [
     "L, T, G are the recursively defined ghost functions stated in the module docstring (definitional axioms over the immutable input array)",
     "that decode(encode(x)) == x follows from the two chunk specifications is the composition lemma (argued in DESIGN.md, not mechanised)",
     "np.iinfo / np.zeros / np.asarray follow their NumPy meaning (library contracts)",
+    "_safe_cast (8 source -> target integer dtype pairs): np.any is the existential quantifier over the elements, np.issubdtype / np.dtype / dtype equality follow NumPy; floating-point input is not covered",
     "_to_smallest_integer_type: ndarray.min() returns an element no element is below (ValueError on an empty array), an integer array compared with a Python integer gives the exact element-wise comparison (NumPy >= 2), np.all is the universal quantifier over the elements, astype between integer dtypes converts element-wise as C does (wraps) -- library contracts, not proved; input arrays hold values of their dtype and have 1 <= n < 2**31 - 1 elements",
     "decode: the packed data stems from int32 values (every partial group sum G(k) fits an int32) and src_size equals the number of groups",
     "the packed length L(n) fits a C int (< 2^31); monotonicity of L and T is the induction lemma of their recursion equations",
 ]
 UNVERIFIED = [
-    "DeltaEncoding, FixedPointEncoding, IntervalQuantizationEncoding, StringArrayEncoding, ByteArrayEncoding (NumPy one-liners / string handling), _safe_cast",
+    "DeltaEncoding, FixedPointEncoding, IntervalQuantizationEncoding, StringArrayEncoding, ByteArrayEncoding (NumPy one-liners / string handling)",
     "compress.py (_find_best_integer_compression, _get_decimal_places, _compress_data driver), bcif.py serialisation",
 ]
 
@@ -408,3 +409,41 @@ def ens_smallest(I, env):
 for _src in ("int64", "int32", "uint64", "int8"):
     CASES.append(Case(COMP + "::_to_smallest_integer_type", f"input={_src}", setup=setup_smallest(_src), overflow=False,
                       ensures=[("result", ens_smallest)], raises={}))
+
+
+# ---- encoding.pyx: _safe_cast (the range check every integer encoding relies on) -----------
+def setup_safe_cast(src, dst):
+    def setup(I):
+        from pyvc.core import int_range
+        from pyvc.nplib import DType
+        n = sym_int(I, "n", 0, 2 ** 31 - 2)
+        data = SymArr("array", src, [n], readonly=True)
+        lo, hi = int_range(src)
+        k = z3.Int("k!r")
+        I.ctx.assume(z3.ForAll([k], z3.Implies(z3.And(k >= 0, k < n), z3.And(z3.Select(data.arr, k) >= lo, z3.Select(data.arr, k) <= hi))))
+        tlo, thi = int_range(dst)
+        j = I.ctx.fresh_int("j")
+        g = {"n": n, "D": data.arr, "tlo": tlo, "thi": thi, "data": data, "dst": dst,
+             # some element lies outside the target range (as an existential over the immutable input)
+             "outside": z3.Exists([k], z3.And(k >= 0, k < n, z3.Or(z3.Select(data.arr, k) < tlo, z3.Select(data.arr, k) > thi)))}
+        I.ghost["cast"] = g
+        return {"args": [data, DType(dst)], "ghost": g}
+    return setup
+
+
+def ens_safe_cast(I, env):
+    g = I.ghost["cast"]
+    res = env.vars["result"]
+    k = I.ctx.fresh_int("k")
+    return [("same_length", natives.eq(I, res.shape[0], g["n"])),
+            ("target_dtype", z3.BoolVal(res.ctype == g["dst"])),
+            ("every_value_kept", implies(z3.And(k >= 0, k < g["n"]), z3.Select(res.arr, k) == z3.Select(g["D"], k))),
+            ("every_value_in_target_range", implies(z3.And(k >= 0, k < g["n"]),
+                                                    z3.And(z3.Select(res.arr, k) >= g["tlo"], z3.Select(res.arr, k) <= g["thi"])))]
+
+
+for _src, _dst in (("int64", "int32"), ("int32", "uint8"), ("uint32", "int8"), ("int32", "int32"), ("uint8", "int64"), ("int32", "uint16"),
+                   ("uint64", "int64"), ("int16", "uint32")):
+    CASES.append(Case(ENC + "::_safe_cast", f"{_src}->{_dst}", setup=setup_safe_cast(_src, _dst), overflow=False,
+                      ensures=[("cast", ens_safe_cast)],
+                      raises={"ValueError": lambda I, env: I.ghost["cast"]["outside"]}))
